@@ -15,7 +15,7 @@ def handle (line : String) : String :=
     | none => "err parse"
     | some args =>
       match genDispatch fn args with
-      | some ws => "ok " ++ fmtWords ws
+      | some ws => if ws.isEmpty then "ok" else "ok " ++ fmtWords ws
       | none =>
         match handDispatch fn args with
         | some s => s
